@@ -696,7 +696,65 @@ func (r *cdpRunner) limitBidOp() {
 			mine = append(mine, lb)
 		}
 	}
-	custody := func(d string) sdk.Int { return sdk.NewIntFromBigInt(r.last.bal(modLabel(auctionsV2types.ModuleName), d)) }
+	custody := func(d string) sdk.Int {
+		return sdk.NewIntFromBigInt(r.last.bal(modLabel(auctionsV2types.ModuleName), d))
+	}
+	// aimed deposit: a live Dutch auction whose posted price is already under the oracle price; the bid goes to the
+	// discount bucket the price is about to enter (the automatic fill needs the truncated discount percentage to
+	// EQUAL the bid's bucket in the begin block), smaller or larger than the auction's remaining debt, and a few
+	// short blocks follow
+	if r.rnd.Intn(3) == 0 {
+		var live []auctionsV2types.Auction
+		for _, x := range r.last.AucV2 {
+			if x.AuctionType && x.CollateralTokenOraclePrice.IsPositive() && x.CollateralTokenAuctionPrice.IsPositive() {
+				live = append(live, x)
+			}
+		}
+		sort.Slice(live, func(i, j int) bool { return live[i].AuctionId < live[j].AuctionId })
+		if len(live) > 0 {
+			x := live[r.rnd.Intn(len(live))]
+			if x.CollateralTokenAuctionPrice.GT(x.CollateralTokenOraclePrice) && x.CollateralTokenInitialPrice.IsPositive() {
+				// nobody bids until the posted price has fallen to the oracle price: one long block gap
+				// (linear decrease: price(t) = initial * (1 - t*(1-discount)/duration), discount 0.7, duration 3600 s)
+				frac := sdk.OneDec().Sub(x.CollateralTokenOraclePrice.Quo(x.CollateralTokenInitialPrice))
+				need := frac.MulInt64(12000).TruncateInt64() - int64(u.c.Header.Time.Sub(x.StartTime).Seconds()) + 20
+				if need > 0 && need < 3500 {
+					r.block(time.Duration(need) * time.Second)
+					if y, ok := r.last.AucV2[x.AuctionId]; ok {
+						x = y
+					} else {
+						return
+					}
+				}
+			}
+			bucket := int64(0)
+			if x.CollateralTokenOraclePrice.GT(x.CollateralTokenAuctionPrice) {
+				bucket = x.CollateralTokenOraclePrice.Sub(x.CollateralTokenAuctionPrice).Quo(x.CollateralTokenOraclePrice).MulInt64(100).TruncateInt64() + 1
+			}
+			if bucket <= 29 {
+				var amt sdk.Int
+				switch r.rnd.Intn(3) {
+				case 0:
+					amt = x.DebtToken.Amount.MulRaw(2)
+				case 1:
+					amt = x.DebtToken.Amount.QuoRaw(int64(2 + r.rnd.Intn(5))).AddRaw(1)
+				default:
+					amt = x.DebtToken.Amount
+				}
+				if r.rnd.Intn(2) == 0 {
+					r.topUpDebt(a, x.DebtToken.Denom, amt.MulRaw(2)) // the bidder keeps coins in his wallet as well
+				} else {
+					r.topUpDebt(a, x.DebtToken.Denom, amt)
+				}
+				r.tx("limit_deposit", a, &auctionsV2types.MsgDepositLimitBidRequest{CollateralTokenId: x.CollateralAssetId, DebtTokenId: x.DebtAssetId, PremiumDiscount: sdk.NewInt(bucket), Bidder: a.Addr.String(), Amount: sdk.NewCoin(x.DebtToken.Denom, amt)},
+					fmt.Sprintf("aimed at auction %d: coll=%d debt=%d bucket=%d amt=%s (auction debt left %s)", x.AuctionId, x.CollateralAssetId, x.DebtAssetId, bucket, amt, x.DebtToken.Amount))
+				for i := 0; i < 5 && !r.panicked; i++ {
+					r.block(25 * time.Second)
+				}
+				return
+			}
+		}
+	}
 	k := r.rnd.Intn(10)
 	switch {
 	case k < 4 || len(mine) == 0:
